@@ -179,7 +179,9 @@ fn judge(case: &Case, oc: &Outcome, reference: Option<&Outcome>) -> Vec<Verdict>
     // load-independent bound: 64 + 8·events + one poll per 512 bytes moved in either direction.
     let moved = oc.bytes_read + oc.out.len() as u64;
     let bound = 64 + 8 * events + moved / 256 + 4 * oc.reqs.len() as u64;
-    if oc.polls > bound * 4 {
+    // (self-wake spinning behind a pending handler with a full read buffer is a known, counted
+    // behaviour of the unchanged tree — DESIGN.md section 11 — and not what this clause is about)
+    if oc.polls > bound * 4 && oc.spins == 0 {
         v.push(Verdict { class: "poll-amplification", sig: stuck_where(case, oc), detail: format!("{} polls for {} events and {} bytes moved (bound {})", oc.polls, events, moved, bound * 4) });
     }
     // output integrity
@@ -289,6 +291,9 @@ fn eval_case(case: &Case, rep: &mut Reporter) {
         None => {}
     }
     rep.max("polls_in_one_case", oc.polls);
+    if oc.spins > 0 {
+        rep.count("cases_with_self_wake_spinning(observed, not judged)", 1);
+    }
     if oc.bytes_read > 131_072 {
         rep.count("cases_reading_beyond_read_buffer_limit", 1);
     }
